@@ -12,7 +12,8 @@ CLI_FLAG = {"comment": "--comment", "source": "--source", "announce": "--tracker
 
 
 def base_metafiles(tmp, rng):
-    """12 base metafiles: v1/v2/hybrid x with/without optional fields, own creators and the reference encoder.
+    """19 base metafiles: v1/v2/hybrid x {all optional fields, none, tracker+source} by the tool's creators; reference-encoded ones
+       with foreign extra keys, with several tracker tiers, with UNSORTED keys, and with an explicit `private: 0` in info.
        returns list of (label, path)"""
     out = []
     pl = 16384
@@ -59,6 +60,14 @@ def base_metafiles(tmp, rng):
         with open(mf, "wb") as fd:
             fd.write(oracle.bencode_ordered(shuffled))
         out.append((f"unsorted-v{ver}", mf))
+    # info states `private: 0` EXPLICITLY (several tools always write the key): Set private must overwrite it with 1, a request that
+    # does not name private must keep the 0; label "ref-vN/..." = reference-encoded metafile of version N (C06 reads the version there)
+    for ver in (1, 2, 3):
+        mf = os.path.join(tmp, "base", f"private0-v{ver}.torrent")
+        with open(mf, "wb") as fd:
+            fd.write(oracle.ref_metafile("payload", files, pl, ver, extra_top={b"announce": b"http://ref/p", b"created by": b"ref"},
+                                         extra_info={b"private": 0, b"source": b"p0src"}))
+        out.append((f"ref-v{ver}/private0", mf))
     return out
 
 
@@ -121,11 +130,16 @@ def enumerate_edits(ctx, visit, want_cli=True, skip=None):
         bases = base_metafiles(tmp, ctx.rng)
         reqs = all_requests(ctx.tier, ctx.rng)
         work = os.path.join(tmp, "w.torrent")
+        sampled = False
         for label, mf in bases:
             if skip and skip(label):
                 continue
             before = oracle.read(mf)
-            for combo, req in reqs:
+            for n, (combo, req) in enumerate(reqs):
+                # quick tier: the private=0 bases differ from ref-vN only in that key: every request that Sets private, a fixed third of the rest
+                if ctx.tier == "quick" and label.endswith("/private0") and combo[2] != "set" and n % 3:
+                    sampled = True
+                    continue
                 for via in (("lib", "cli") if want_cli else ("lib",)):
                     if via == "cli":
                         argv = cli_argv(work, req)
@@ -133,6 +147,7 @@ def enumerate_edits(ctx, visit, want_cli=True, skip=None):
                             continue
                         # the CLI space is large only through values; sample it in the quick tier
                         if ctx.tier == "quick" and (hash((label, combo)) % 4):
+                            sampled = True
                             continue
                     shutil.copyfile(mf, work)
                     exc = None
@@ -148,4 +163,4 @@ def enumerate_edits(ctx, visit, want_cli=True, skip=None):
                     for leftover in os.listdir(tmp):
                         if leftover.startswith("w.torrent.") :
                             os.remove(os.path.join(tmp, leftover))
-        ctx.exhaustive = True
+        ctx.exhaustive = not sampled
